@@ -3,6 +3,15 @@
 import json
 ALL = ["C%02d" % i for i in range(1, 21)]
 CHECKS = {
+ "C15": dict(level="exploration", technique="bounded-exhaustive enumeration of iterator parameters and of all predicates in small scope, each iterator driven as a state machine against a naive reference enumeration",
+   text="Every parameter tuple in a box containing each special-cased boundary (n=0,1; k=0,n,n+1,n+2; zero/repeated multiplicities; empty and zero factors) is driven to exhaustion plus three further Next calls and compared, as a sequence where an order is documented and as a repeat-free set otherwise, with a naive recursive enumeration; RestrictedPrefixProduct over every predicate on prefix trees with <=14 nodes (17 thorough), RestrictedPrefixPermutations n<=3 over all 2^15 predicates, PermutationsByPattern n<=3 over all 2^9, TopologicalSorts n<=6 over every relation, plus pattern-avoidance / position / parity predicate families for n<=6. Each case runs under a 15 s non-termination guard.",
+   note="Trusted: the naive enumerators. Predicates are pure. Larger n are not covered.", ref="§3 C15"),
+ "C16": dict(level="exploration", technique="bounded-exhaustive enumeration of (n,k) across every overflow threshold and of ranks/subsets, math/big oracle",
+   text="CoeffUint64/Coeff are compared with exact big-integer binomials on every row n<=70, for every k in 3..40 on every n from 0 to the independently computed threshold T_k+64 in both argument forms (k=3 interior thinned in quick, complete in thorough), for k=2 around every power of two (all n<=2^32+64 in thorough) and on windows for k<=1 and the far region: exact or panic, and exact whenever C(n,k)*min(k,n-k) fits. Rank is checked on every subset of [0,16) ([0,20) thorough) against its CombinationsColex position, Unrank on every rank below 3*10^5 (2*10^6) for k<=6 and on boundary ranks; ranks whose walk overflows are probed under a deadline (known finding).",
+   note="Trusted: math/big. Unrank inputs whose correct linear walk exceeds 2e7 steps are not evaluated. Known finding: Unrank overflow/non-termination for large ranks.", ref="§3 C16"),
+ "C17": dict(level="exploration", technique="bounded-exhaustive enumeration over a 6-element universe plus explicit-state BFS of mutation histories; map-based set oracle",
+   text="All ordered pairs of the 64 subsets of U for every binary function, every x for Remove/ContainsSingle, all 1555 argument lists of length <=4 for Add/NewSortedInts on receivers with 0/1/k spare capacity, Complement n<=7, Range on [-5,5]^2x[-3,3] with the documented panic set, argument immutability over full capacity, BFS over mutation histories keyed by exact slice content (closure in thorough); ints.Sort against sort.Ints on all ternary sequences of length <=9, all permutations of length <=8 and adversarial families including McIlroy-adversary inputs that drive the real code into its heap-sort fallback with chosen content.",
+   note="Trusted: map-based set model, sort.Ints. Arguments satisfy the SortedInts representation invariant.", ref="§3 C17"),
  "C01": dict(level="exploration", technique="bounded-exhaustive enumeration of all labelled graphs (closed under relabelling) with generator-invariance oracle",
    text="CanonicalIsomorph is run on every labelled graph with n<=7 (all 2.1M; n=8, all 2^28, in thorough), in four representations for n<=6, on every labelled regular graph on 8 and 9 vertices (cubic on 10 in thorough) and on 27 named hard graphs (n<=16) under every relabelling within 2 transpositions; because each enumerated set is closed under relabelling, c(g)=c(sigma g)=c(tau g) for all members is invariance under all n! relabellings, and the number of distinct canonical forms must equal the number of orbits found by an independent orbit sweep.",
    note="Trusted: the mask relabelling helpers, the orbit sweep (closure under two generators), Go runtime. Not covered: graphs with n>=9 outside the listed families.", ref="§3 C01"),
